@@ -747,7 +747,79 @@ def area_msg(ctx, b):
     ctx.count('translated_msg_calls', len(b.ops))
 
 
-AREAS = {'msg': area_msg, 'net': area_net, 'pbn': area_pbn, 'json': area_json, 'hands': area_hands, 'score': area_score, 'imps': area_imps, 'notation': area_notation, 'auction': area_auction, 'play': area_play}
+def area_regex(ctx, b):
+    """the regular-expression engine itself (Model/Regex.lean) next to CPython's `re`: the code base's patterns on
+    realistic and damaged subjects, and random patterns of the modelled subset (generators of harness/regex/difftest.py)"""
+    import os
+    import sys
+    import time
+    sys.path.insert(0, os.path.join(os.path.dirname(os.path.abspath(__file__)), 'regex'))
+    import difftest as D
+    import random as _random
+    state = _random.getstate()
+    _random.seed(ctx.rng.randrange(1 << 30))          # the generators use the module-level PRNG
+    try:
+        cases = []
+        for pat, subs in D.FIXED:
+            allsubs = list(subs) + [D.mutate(s0) for s0 in subs for _ in range(2 if ctx.quick else 12)]
+            for s in allsubs:
+                for ic in (0, 1):
+                    cases.append((ic, pat, s, _random.choice(D.REPLS)))
+        n_random = 600 if ctx.quick else 5000
+        n0 = len(cases)
+        while len(cases) - n0 < n_random:
+            pat = D.gen_alt(_random.choice([0, 1, 2, 2, 3])) if _random.random() < 0.7 else D.tiny_alt(_random.choice([1, 2, 2, 3]))
+            for _ in range(3):
+                s = D.gen_subject() if _random.random() < 0.5 else D.gen_subject_from(pat)
+                cases.append((_random.randrange(2), pat, s, _random.choice(D.REPLS)))
+    finally:
+        _random.setstate(state)
+    driver = common.ModelDriver()
+    ops, exp = [], []
+    for ic, pat, s, repl in cases:
+        for op in 'MFSUA':
+            t0 = time.time()
+            e = D.expected(op, ic, pat, s, repl)
+            if time.time() - t0 > 0.05:
+                continue                               # CPython itself needs long (exponential pattern): not compared
+            ops.append(f'R.case {op} {ic} {D.enc(pat)} {D.enc(s)} {D.enc(repl)}')
+            exp.append((op, ic, pat, s, e))
+    # the model explores the whole backtracking tree (CPython prunes with a minimum-width test): a few random patterns
+    # take very long — run in chunks under a time limit and drop the single cases that exceed it
+    import subprocess
+
+    def run_chunk(lo, hi):
+        try:
+            return driver.run(ops[lo:hi], timeout=8)
+        except subprocess.TimeoutExpired:
+            out = []
+            for i in range(lo, hi):
+                try:
+                    out += driver.run(ops[i:i + 1], timeout=1)
+                except subprocess.TimeoutExpired:
+                    ctx.count('regex_slow_skipped')
+                    out.append(None)
+            return out
+    got = []
+    for lo in range(0, len(ops), 400):
+        got += run_chunk(lo, min(len(ops), lo + 400))
+    bad = []
+    for (op, ic, pat, s, e), g in zip(exp, got):
+        if g is None:
+            continue
+        if g != e:
+            # the model refuses some patterns CPython compiles (stated domain restriction): not a disagreement
+            if g == 'N' and D.classify_rejected(pat) is not None:
+                ctx.count('regex_pattern_outside_subset')
+                continue
+            bad.append((op, ic, pat, s, e, g))
+    ctx.count('regex_cases', len(ops))
+    for op, ic, pat, s, e, g in bad[:3]:
+        b.prefailed = getattr(b, 'prefailed', []) + [('re.' + {'M': 'match', 'F': 'fullmatch', 'S': 'search', 'U': 'sub', 'A': 'findall'}[op],
+                                                     f'pattern {pat!r} subject {s!r} IGNORECASE={ic}', g, f'CPython: {e}')]
+
+
+AREAS = {'regex': area_regex, 'msg': area_msg, 'net': area_net, 'pbn': area_pbn, 'json': area_json, 'hands': area_hands, 'score': area_score, 'imps': area_imps, 'notation': area_notation, 'auction': area_auction, 'play': area_play}
 # areas whose input set does not depend on the shard: only shard 0 runs them
 UNSHARDED = {'score', 'imps', 'notation'}
 
